@@ -52,7 +52,10 @@ T_New ==
 T_KeyNew ==
   /\ IsEv("key_new")
   /\ LET r == KeyNewStep(Ev.alg, Ev.min, Ev.sign)
-     IN /\ r.res = Ev.res /\ r.minlen = Ev.minlen /\ r.slen = Ev.slen
+         bad(n) == n # -1 /\ ~RfcLenOk(Ev.alg, n)
+     IN \* which of the two errors is reported when both lengths are out of range is not specified
+        /\ (r.res = Ev.res \/ (bad(Ev.min) /\ bad(Ev.sign) /\ Ev.res \in {"BadMinMacLen", "BadSigningLen"}))
+        /\ r.minlen = Ev.minlen /\ r.slen = Ev.slen
         \* RFC 8945 5.2.2.1, whatever the transcription says
         /\ (Ev.res = "Ok" => RfcLenOk(Ev.alg, Ev.minlen) /\ RfcLenOk(Ev.alg, Ev.slen))
   /\ UNCHANGED <<k, cli, srv, rfc, macs, fl, pre, g>>
